@@ -47,6 +47,7 @@ type Options struct {
 	QiCoinbase        common.Address
 	MinerPreference   float64
 	LockupByte        uint8
+	LockupContract    *common.Address // contract-held coinbases: rewards accumulate in 'cl' lockup records owned by this contract
 	GenAllocs         []params.GenesisAccount
 	IndexAddressUtxos bool
 	GasCeil           uint64
@@ -177,6 +178,7 @@ func (n *Net) coreOn(ctx int, loc common.Location, db ethdb.Database) (*core.Cor
 	if ctx == Zone {
 		minerCfg.QuaiCoinbase = o.QuaiCoinbase
 		minerCfg.QiCoinbase = o.QiCoinbase
+		minerCfg.LockupContractAddress = o.LockupContract
 	}
 	txc := core.DefaultTxPoolConfig
 	txc.Journal = ""
